@@ -7,8 +7,12 @@ Case kinds (each replayable through execute):
   merge   real helpers.merge_attributes(a, b, numeric_sort) on dict / Attributes arguments vs the union model
           (gvmon/models/c17.py); arguments deep-compared before/after
   db      features carrying generated mappings -> real create_db / update -> read back through FeatureDB, through a
-          reopened FeatureDB and through plain sqlite3 + stdlib json
-  eq      pool of features; every ordered pair: (a == b) == (str(a) == str(b)), a == b => hash equal, != is the negation
+          reopened FeatureDB, through a FeatureDB opened with a latin-1 decoding text_factory and through plain
+          sqlite3 + stdlib json (lone surrogates and astral characters included); the raw column is read as bytes: valid
+          JSON decoding to the attributes, ASCII only
+  eq      pool of features; every ordered pair: (a == b) == (str(a) == str(b)), a == b => hash equal, != is the negation;
+          pools hold near-equal lines (differing only by trailing/leading whitespace-like characters, an empty 10th
+          column, letter case, normalisation form); set/dict of the pool has one member per distinct printed line
   set     parsed / database feature; values set as scalar, list, tuple through feature[k], attributes[k], update(...),
           setdefault, under both settings of always_return_list; afterwards every stored value is a sequence of str equal
           to what was set; astuple(), _jsonify and the stored values do not depend on the switch; the view differs only
@@ -44,8 +48,12 @@ RULE = ("mappings of 0-6 keys -> 0-4 values over arbitrary Unicode (JSON-structu
         "string, list or tuple through feature[k]=, attributes[k]=, update(dict / kwargs / pairs / Attributes), setdefault, "
         "with always_return_list True or False while setting; features parsed from a line or read from a database; "
         "merge arguments: dict or Attributes, overlapping keys and values from number-like / unclear / non-number / "
-        "Unicode pools, numeric_sort on/off, both switch settings; pools of 9-12 features (same line twice, from a "
-        "database, built with list/tuple values, other dialect, one column/value/key order changed), all ordered pairs. "
+        "Unicode pools, numeric_sort on/off, both switch settings; pools of 12-20 features (same line twice, from a "
+        "database, built with list/tuple values, other dialect, one column/value/key order changed, plus 2-3 groups of "
+        "near-equal lines: last value ending in blank / NBSP / U+3000 / NEL / LS / blank runs, extra=[''] or a trailing "
+        "tab, seqid with a leading blank, last value differing in letter case only, in NFC vs NFD only), all ordered pairs "
+        "and the sizes of set/dict built from the pool; kind db: 40% of the cases with lone surrogates, file cases also "
+        "re-read through text_factory=latin-1. "
         "edit: 1-5 steps, each = random subset of {str, hash, ==, set/dict, astuple, previous state} observed, then one "
         "edit (40% mapping operation with scalar/list/tuple forms, 35% in-place list operation out of 14, 25% column "
         "through attribute / feature[i] / chrom,stop alias), all six observations at the end; values are non-empty and "
@@ -61,6 +69,18 @@ REQUIRED = ["alias: re-fetched features compared with the stored text", "alias: 
             "json: mappings with lone surrogates", "merge: calls", "merge: calls while always_return_list=False", "merge: argument snapshots compared",
             "merge: keys judged in numeric order", "merge: keys judged in text order",
             "db: features read back", "db: raw JSON columns decoded with stdlib json", "db: reopened databases",
+            "db: features with lone surrogates read back", "db: features with characters outside the BMP read back",
+            "db: raw attributes columns read as bytes", "db: raw attributes columns that are pure ASCII",
+            "db: non-ASCII content found stored as ASCII escapes", "db: databases reopened with a latin-1 text_factory",
+            "db: features read back through a latin-1 text_factory",
+            "db: non-ASCII attributes compared through a latin-1 text_factory",
+            "eq: pairs whose printed lines differ only by trailing whitespace-like characters",
+            "eq: pairs whose printed lines differ only by an empty trailing column",
+            "eq: pairs whose printed lines differ only by leading whitespace-like characters",
+            "eq: pairs whose printed lines differ only by letter case",
+            "eq: pairs whose printed lines differ only by Unicode normalisation form",
+            "eq: set/dict sizes compared with the number of distinct printed lines",
+            "eq: sets in which equal features collapse into one member",
             "eq: ordered pairs", "eq: equal pairs of distinct objects", "eq: equal pairs with different astuple()",
             "eq: unequal pairs with equal astuple()", "set: stored values checked", "set: scalar-set values",
             "set: tuple-set values", "set: operations while always_return_list=False",
@@ -78,7 +98,7 @@ REQUIRED = ["alias: re-fetched features compared with the stored text", "alias: 
             "sjson: features read from rewritten rows", "sjson: hand-built features read back"]
 REQUIRED_CLASSES = ["set origin=line", "set origin=db", "print origin=line", "print origin=db", "merge dict,dict",
                     "merge attrs,attrs", "merge dict,attrs", "merge attrs,dict", "set origin=jsontext", "set origin=jsondb",
-                    "edit origin=line", "edit origin=db", "edit origin=jsontext", "edit origin=jsondb",
+                    "db with lone surrogates, file", "db with lone surrogates, memory", "edit origin=line", "edit origin=db", "edit origin=jsontext", "edit origin=jsondb",
                     "edit: inplace edit after an observation", "edit: column edit after an observation",
                     "edit: attribute mapping edit after an observation", "sjson text", "sjson update_file",
                     "sjson update_conn", "sjson ctor_create", "sjson ctor_update"]
@@ -87,7 +107,14 @@ ASSUMPTIONS = [
     "and database read-back are judged on key order and on values as sequences (a tuple comes back as a list); Python "
     "== between the two Attributes objects is asked only when no tuple was stored",
     "a high surrogate directly followed by a low surrogate is the same JSON text as the astral character: such code-point "
-    "sequences are not generated; lone surrogates are used only in memory (kind json), not where SQLite/UTF-8 is involved",
+    "sequences are not generated; lone surrogates are used in memory (kind json) and in attribute keys/values stored with "
+    "create_db/update (kind db: the unchanged tree stores and returns them, its JSON text being pure ASCII); ids and "
+    "the other columns stay ASCII there",
+    "kind db: the raw attributes column is required to be pure-ASCII JSON text, as the unchanged tree writes it (every "
+    "non-ASCII character as an escape): that is what makes the stored text the identity 'for any Unicode content' "
+    "independently of how a connection decodes text; a FeatureDB opened with text_factory = bytes.decode('latin-1') must "
+    "therefore show the same attributes (ids are ASCII)",
+    "kind eq: a set / dict of features has one member per distinct printed line (consequence of == and hash as stated)",
     "the view of a one-item sequence under always_return_list=False may be the item or the sequence; anything else must "
     "be viewed unchanged",
     "merge_attributes: arguments hold lists of str or scalar str (tuple-valued arguments are not generated: on the real "
@@ -342,13 +369,55 @@ def build_features(specs):
     return feats, want
 
 
-def compare_db(ctx, case, db, want, what):
+def latin1(b):
+    return b.decode("latin-1")
+
+
+def non_ascii(pairs):
+    return any(ord(ch) > 127 for k, v in pairs for x in [k] + list(v) for ch in x)
+
+
+def raw_columns(ctx, case, db, want, what):
+    """The attributes column as it is stored (bytes, independent of the connection's text_factory): JSON text the
+    stdlib json module decodes to the attributes, and - as on the unchanged tree - ASCII characters only."""
+    rows = db.conn.execute("SELECT id, CAST(attributes AS BLOB) FROM features").fetchall()
+    for fid, blob in rows:
+        blob = bytes(blob)
+        exp = want.get(fid)
+        ctx.mon("db: raw attributes columns read as bytes")
+        ascii_only = all(b < 128 for b in blob)
+        ctx.mon("db: raw attributes columns that are pure ASCII" if ascii_only else "db: raw attributes columns holding non-ASCII bytes")
+        try:
+            dec = [[k, M.values_of(v)] for k, v in json.loads(blob.decode("utf-8"), object_pairs_hook=list)]
+        except (ValueError, TypeError, AttributeError) as ex:
+            dec = "not decodable: %r" % (ex,)
+        if dec != exp:
+            ctx.violation(case, {"why": "%s: raw attributes column is not JSON text that the stdlib json module decodes to the attributes" % what,
+                                 "id": fid, "column": repr(blob)[:400], "decoded": dec, "expected": exp})
+            return False
+        if not ascii_only:
+            ctx.violation(case, {"why": "%s: raw attributes column holds non-ASCII characters (the stored JSON text writes every "
+                                        "non-ASCII character as an escape, which keeps it the identity whatever decodes the column)" % what,
+                                 "id": fid, "column": repr(blob)[:400]})
+            return False
+        if exp and non_ascii(exp):
+            ctx.mon("db: non-ASCII content found stored as ASCII escapes")
+    return True
+
+
+def compare_db(ctx, case, db, want, what, counter="db: features read back"):
     seen = 0
     try:
         for fid, exp in want.items():
             g = db[fid]
             got = observe(g.attributes)
-            ctx.mon("db: features read back")
+            ctx.mon(counter)
+            if counter == "db: features read back":
+                flat = "".join(k + "".join(v) for k, v in exp)
+                if G.has_surrogate(flat):
+                    ctx.mon("db: features with lone surrogates read back")
+                if any(ord(ch) > 0xFFFF for ch in flat):
+                    ctx.mon("db: features with characters outside the BMP read back")
             if bad_value(got) or as_lists(got) != exp:
                 ctx.violation(case, {"why": "%s: attributes read back from the database differ (keys, order or values)" % what,
                                      "id": fid, "got": repr(got), "expected": exp})
@@ -373,7 +442,7 @@ def compare_db(ctx, case, db, want, what):
             ctx.violation(case, {"why": "%s: raw attributes column (sqlite3 + stdlib json) differs" % what, "id": row["id"],
                                  "got": row["attributes"], "expected": want.get(row["id"])})
             return False
-    return True
+    return raw_columns(ctx, case, db, want, what)
 
 
 def run_db(ctx, case):
@@ -400,6 +469,17 @@ def run_db(ctx, case):
             db = gffutils.FeatureDB(dbfn)
             ctx.mon("db: reopened databases")
             ok = compare_db(ctx, case, db, want, "after close/reopen")
+            if ok and case.get("latin1"):
+                # the stored JSON text is pure ASCII, so a connection that decodes text as latin-1 reads the same attributes
+                db.conn.close()
+                db = gffutils.FeatureDB(dbfn, text_factory=latin1)
+                ctx.mon("db: databases reopened with a latin-1 text_factory")
+                ok = compare_db(ctx, case, db, want, "after reopening with text_factory = bytes.decode('latin-1')",
+                                counter="db: features read back through a latin-1 text_factory")
+                if ok and non_ascii([p for exp in want.values() for p in exp]):
+                    ctx.mon("db: non-ASCII attributes compared through a latin-1 text_factory")
+                db.conn.close()
+                db = gffutils.FeatureDB(dbfn)
         if ok and case.get("again"):
             # read, set more values on the database feature, store it back (replace), read again
             fid = specs[0]["id"]
@@ -463,6 +543,11 @@ def run_eq(ctx, case):
             contracts.drain()
             return
         with Switch(case.get("switch", True)):
+            try:
+                keys = [M.near_keys(str(f)) for f in feats]
+            except Exception as ex:
+                ctx.violation(case, {"why": "printing a pool feature raised %s" % type(ex).__name__, "exception": repr(ex)})
+                return
             for i, a in enumerate(feats):
                 for j, b in enumerate(feats):
                     try:
@@ -483,6 +568,9 @@ def run_eq(ctx, case):
                             ctx.mon("eq: equal pairs with different astuple()")
                     if not same and ta == tb:
                         ctx.mon("eq: unequal pairs with equal astuple()")
+                    near = [] if same else M.near_relations(sa, sb, keys[i], keys[j])
+                    for rel in near:
+                        ctx.mon("eq: pairs whose printed lines differ only by %s" % rel)
                     why = None
                     if bool(e) != same:
                         why = "(a == b) is %r but the printed lines are %s" % (e, "equal" if same else "different")
@@ -491,9 +579,26 @@ def run_eq(ctx, case):
                     elif e and ha != hb:
                         why = "a == b but hash(a) != hash(b)"
                     if why:
-                        ctx.violation(case, {"why": why, "i": i, "j": j, "a": sa, "b": sb,
-                                             "spec_a": case["pool"][i], "spec_b": case["pool"][j]})
+                        ctx.violation(case, dict({"why": why, "i": i, "j": j, "a": sa, "b": sb, "spec_a": case["pool"][i],
+                                                  "spec_b": case["pool"][j]},
+                                                 **({"the printed lines differ only by": near} if near else {})))
                         return
+            # a set / dict keeps one member per distinct printed line (follows from == and hash as stated)
+            try:
+                lines = [str(f) for f in feats]
+                sizes = {"set(features)": len(set(feats)), "dict keyed by features": len(dict((f, n) for n, f in enumerate(feats))),
+                         "set built in reverse order": len(set(reversed(feats)))}
+            except Exception as ex:
+                ctx.violation(case, {"why": "building a set/dict of features raised %s" % type(ex).__name__, "exception": repr(ex)})
+                return
+            ctx.mon("eq: set/dict sizes compared with the number of distinct printed lines", len(sizes))
+            if len(set(lines)) < len(lines):
+                ctx.mon("eq: sets in which equal features collapse into one member")
+            for what, n in sizes.items():
+                if n != len(set(lines)):
+                    ctx.violation(case, {"why": "%s keeps %d members for %d distinct printed lines" % (what, n, len(set(lines))),
+                                         "lines": sorted(set(lines))})
+                    return
     finally:
         for db in dbs:
             try:
@@ -1419,14 +1524,18 @@ def run(ctx):
     merge_phase(ctx, rng, ctx.budget(16000, 320000), True)
     # 3. database round trip
     for _ in range(ctx.budget(500, 16000)):
-        specs = [{"id": "f%d" % i, "items": G.form_mapping(rng, nmax=5, exclude=("ID", "Parent"))}
+        sur = rng.random() < 0.4
+        specs = [{"id": "f%d" % i, "items": G.form_mapping(rng, surrogates=sur, nmax=5, exclude=("ID", "Parent"))}
                  for i in range(rng.randrange(1, 7))]
         case = {"kind": "db", "features": specs, "file": rng.random() < 0.4, "route": rng.choice(["create", "create", "update"]),
-                "again": G.form_mapping(rng, nmax=3, exclude=("ID", "Parent")) if rng.random() < 0.5 else []}
+                "again": G.form_mapping(rng, surrogates=sur, nmax=3, exclude=("ID", "Parent")) if rng.random() < 0.5 else []}
+        case["latin1"] = case["file"] and rng.random() < 0.75
         execute(ctx, case)
         txt = "".join(text_of_forms(s["items"]) for s in specs)
         ctx.case(case, G.is_rich(txt) or any(f[0] == "scalar" for s in specs for _, f in s["items"]),
                  cls="db %s %s" % (case["route"], "file" if case["file"] else "memory"))
+        if G.has_surrogate(txt):
+            ctx.classes["db with lone surrogates, %s" % ("file" if case["file"] else "memory")] += 1
     # 4. equality over pools
     for _ in range(ctx.budget(300, 9600)):
         case = {"kind": "eq", "pool": G.pool(rng), "switch": rng.random() < 0.8}
